@@ -16,8 +16,10 @@ The functions below take the total as a parameter, like the Go code reads it fro
 store key; the histories of `Props/C02.lean` pass `totalOf table` (ASSUMPTION on x/staking:
 `LastTotalPower` is the sum of the `LastValidatorPower` records, see `totalOf`).
 
-Ghost state (never read by the executable part, never printed by the driver): `epoch`,
-`epochStart` and `log`, the list of every observation made by `TryAttestation` since genesis.
+Ghost state (never read by the executable ORACLE part, never printed by the driver): `epoch`,
+`epochStart` and `log`, the list of every observation made by `TryAttestation` since genesis. (The one
+reader is the bridge layer at the end of this file: `endBlock` takes the entries a tally appended to the
+log as the list of `processAttestation` calls of that block, in order.)
 `Props/C02.lean` ties the log to the executable state (observed flags, cursor, `minted`) and to the op
 history, and `epoch` / `epochStart` to the reset ops of the history (`epoch_is_number_of_resets`,
 `epochStart_is_last_reset`).
@@ -240,5 +242,137 @@ def powerOf (tbl : List (Nat × Nat)) (v : Nat) : Nat :=
 is the sum of the stored `LastValidatorPower` records; bonded validators that never vote are simply
 further rows of the table. -/
 def totalOf (tbl : List (Nat × Nat)) : Nat := (tbl.map (·.2)).sum
+
+/-! ## Claim identity
+
+The oracle keys an attestation by `(nonce, ClaimHash)`; everything above takes that key as the claim's
+identity. The property speaks of the *identical claim*: every field of the reported event, the bridge
+deployment id included. The harness therefore passes, next to the implementation's hash, its own identity
+of the submitted claim (a number per distinct tuple of ALL claim fields, computed without `ClaimHash`).
+`register` is the run-time form of the assumption `NoCollisionAt` of `Props/C02.lean`: it refuses a
+submission whose key is already held by a different claim (`Props/C02.lean`: `registry_identifies`,
+`checked_history_identifies_claim`). -/
+
+def regLookup (r : List (Nat × Nat)) (h : Nat) : Option Nat := (r.find? (fun p => p.1 == h)).map (·.2)
+
+/-- `none`: the key `h` is already held by a different claim -/
+def register (r : List (Nat × Nat)) (h c : Nat) : Option (List (Nat × Nat)) :=
+  match regLookup r h with
+  | some c' => if c' = c then some r else none
+  | none => some (r ++ [(h, c)])
+
+def registerAll (r : List (Nat × Nat)) : List (Nat × Nat) → Option (List (Nat × Nat))
+  | [] => some r
+  | p :: rest =>
+    match register r p.1 p.2 with
+    | some r' => registerAll r' rest
+    | none => none
+
+/-! ## The bridge side of an executed-batch claim
+
+  x/skyway/keeper/batch.go         BuildOutgoingTXBatch, OutgoingTxBatchExecuted, CancelOutgoingTXBatch
+  x/skyway/keeper/msg_server.go    additionalPatchChecks (BatchSendToRemoteClaim)
+  x/skyway/abci.go                 EndBlocker: createBatch, per chain attestationTally (+ catch-up),
+                                   cleanupTimedOutBatches LAST
+
+Whether the handler can apply an executed-batch claim is not a property of the claim (like the token of a
+deposit) but of the batch store at the moment the claim is observed, and the same end blocker that
+observes the claim also cancels expired batches. `Bridge` is the part of the store these claims act on:
+the open batches of one token (value = Σ amount + tax of its transfers), the value waiting in the
+unbatched pool, the vouchers burned by executed batches. The handler calls of a tally are exactly its new
+log entries, in order (`observe` appends one per `processAttestation` call), and the handler never feeds
+back into the oracle, so `endBlock` runs them after `tally`. -/
+
+structure Batch where
+  id : Nat          -- batch nonce
+  amount : Nat      -- what executing it burns / cancelling it hands back to the pool
+  timeout : Nat     -- `BatchTimeout` (unix seconds): build time + 10 min
+deriving Repr, DecidableEq
+
+structure Bridge where
+  batches : List Batch := []
+  pool : Nat := 0
+  burned : Nat := 0
+  /-- vouchers that entered through `send` (the harness mints what a user sends) -/
+  funded : Nat := 0
+  lastId : Nat := 0
+  /-- claim hash ↦ batch nonce the claim reports as executed (what the stored claim carries) -/
+  execClaims : List (Nat × Nat) := []
+deriving Repr
+
+/-- `getBatchTimeoutHeight`: block time + 10 minutes -/
+def batchLifetime : Nat := 600
+
+/-- a user's `SendToRemote` of `amt` (fresh vouchers) -/
+def send (b : Bridge) (amt : Nat) : Bridge := { b with pool := b.pool + amt, funded := b.funded + amt }
+
+/-- `BuildOutgoingTXBatch` at block time `now`: everything in the pool (the harness stays far below
+`OutgoingTxBatchSize`) becomes one batch; nothing to batch = nothing happens -/
+def build (b : Bridge) (now : Nat) : Bridge :=
+  if b.pool = 0 then b else
+  { b with batches := b.batches ++ [{ id := b.lastId + 1, amount := b.pool, timeout := now + batchLifetime }],
+           pool := 0, lastId := b.lastId + 1 }
+
+def findBatch (b : Bridge) (id : Nat) : Option Batch := b.batches.find? (fun x => x.id == id)
+
+/-- can `OutgoingTxBatchExecuted` apply a claim for batch `id` reported at remote height `eth`? -/
+def canExecute (b : Bridge) (id eth : Nat) : Bool :=
+  match findBatch b id with
+  | some x => eth < x.timeout
+  | none => false
+
+/-- `OutgoingTxBatchExecuted`: unknown batch / `BatchTimeout <= EthBlockHeight` → error, nothing written
+(`processAttestation` logs it, the claim stays observed); otherwise the vouchers are burned and the batch
+is deleted for good -/
+def execBatch (b : Bridge) (id eth : Nat) : Bridge :=
+  match findBatch b id with
+  | some x =>
+    if eth < x.timeout then
+      { b with batches := b.batches.filter (fun y => y.id != id), burned := b.burned + x.amount }
+    else b
+  | none => b
+
+/-- `cleanupTimedOutBatches` at block time `now`: every batch with `BatchTimeout < now` is cancelled, its
+transfers go back to the pool -/
+def cancelExpired (b : Bridge) (now : Nat) : Bridge :=
+  { b with batches := b.batches.filter (fun x => !(x.timeout < now)),
+           pool := b.pool + ((b.batches.filter (fun x => x.timeout < now)).map (·.amount)).sum }
+
+/-- the handler call of one observation -/
+def handle (b : Bridge) (o : Obs) : Bridge :=
+  match regLookup b.execClaims o.hash with
+  | some id => execBatch b id o.eth
+  | none => b
+
+def handlerEffects (b : Bridge) (obs : List Obs) : Bridge := obs.foldl handle b
+
+/-- oracle + bridge of one chain -/
+structure Sky where
+  o : St
+  b : Bridge := {}
+deriving Repr
+
+/-- a validator's `MsgBatchSendToRemoteClaim` for batch `id`: `additionalPatchChecks` refuses it while the
+batch is in the store with `BatchTimeout <= EthBlockHeight`; then `Attest`. The static `applicable` /
+`amount` of the oracle model are not used for these claims (false / 0: nothing is minted). -/
+def voteExec (s : Sky) (v n h eth id compass : Nat) : Sky × Res :=
+  if (match findBatch s.b id with | some x => decide (x.timeout ≤ eth) | none => false) then (s, .rejected) else
+  if (vote s.o v n h eth false 0 compass).2 = .ok then
+    ({ o := (vote s.o v n h eth false 0 compass).1,
+       b := if (regLookup s.b.execClaims h).isSome then s.b
+            else { s.b with execClaims := s.b.execClaims ++ [(h, id)] } }, .ok)
+  else (s, .rejected)
+
+/-- `skyway.EndBlocker` at block time `now`; `fifty`: the height is a multiple of 50 (batches are built,
+validator nonces catch up) -/
+def endBlock (s : Sky) (power : Nat → Nat) (total : Nat) (ef : EventFault) (now : Nat) (fifty : Bool) : Sky :=
+  { o := if fifty then catchUp (tally s.o power total ef) else tally s.o power total ef,
+    b := cancelExpired
+           (handlerEffects (if fifty then build s.b now else s.b)
+             ((tally s.o power total ef).log.drop s.o.log.length))
+           now }
+
+/-- what the bank reports as supply of the bridged denom -/
+def Sky.supply (s : Sky) : Nat := s.b.funded + s.o.minted - s.b.burned
 
 end Paloma.Oracle
